@@ -5,6 +5,7 @@
 -/
 import Stevia.Model.HashSet
 import Stevia.Model.HashSetLayout
+import Stevia.Proofs.TreeLayoutRT
 
 namespace Stevia
 variable {β : Type}
@@ -87,17 +88,207 @@ structure HSet.LayoutOk (s : HSet β) : Prop where
   range : ∀ i ∈ s.liveSlots ++ s.free, 1 ≤ i ∧ i ≤ s.slots
   free_ne : ∀ i ∈ s.free, i ≠ s.seq
 
+/-! ### Helper lemmas -/
+
+theorem HSet.flatMap_set_perm {α : Type} (l : List (List α)) (b : Nat) (ch : List α)
+    (h : l[b]? = some ch) :
+    ∃ rest, (l.flatMap id).Perm (ch ++ rest) ∧
+      ∀ ch', ((l.set b ch').flatMap id).Perm (ch' ++ rest) := by
+  induction l generalizing b with
+  | nil => simp at h
+  | cons x l ih =>
+    cases b with
+    | zero =>
+      simp at h; subst h
+      exact ⟨l.flatMap id, by simp, fun ch' => by simp⟩
+    | succ b =>
+      simp at h
+      obtain ⟨rest, h1, h2⟩ := ih b h
+      refine ⟨x ++ rest, ?_, fun ch' => ?_⟩
+      · simp only [List.flatMap_cons, id]
+        exact (h1.append_left x).trans (List.perm_append_comm_assoc _ _ _)
+      · simp only [List.set_cons_succ, List.flatMap_cons, id]
+        exact ((h2 ch').append_left x).trans (List.perm_append_comm_assoc _ _ _)
+
+theorem HSet.chainHas_iff [DecidableEq β] (ch : List (Nat × β)) (v : β) :
+    HSet.chainHas ch v = true ↔ v ∈ ch.map (·.2) := by
+  simp [HSet.chainHas, List.any_eq_true]
+
+theorem HSet.chainRemove_none [DecidableEq β] {v : β} {ch : List (Nat × β)} (h : HSet.chainRemove v ch = none) :
+    v ∉ ch.map (·.2) := by
+  induction ch with
+  | nil => simp
+  | cons e rest ih =>
+    unfold HSet.chainRemove at h
+    split at h
+    · cases h
+    · rename_i hne
+      split at h
+      · cases h
+      · rename_i hn
+        simp only [List.map_cons, List.mem_cons, not_or]
+        exact ⟨fun e' => hne e'.symm, ih hn⟩
+
+theorem HSet.chainRemove_some [DecidableEq β] {v : β} {ch ch' : List (Nat × β)} {i : Nat}
+    (h : HSet.chainRemove v ch = some (i, ch')) : ch.Perm ((i, v) :: ch') := by
+  induction ch generalizing ch' with
+  | nil => simp [HSet.chainRemove] at h
+  | cons e rest ih =>
+    unfold HSet.chainRemove at h
+    split at h
+    · rename_i he
+      cases h
+      obtain ⟨a, b⟩ := e
+      simp at he; subst he
+      exact List.Perm.refl _
+    · split at h
+      · rename_i j r' hr
+        cases h
+        exact ((ih hr).cons e).trans (List.Perm.swap _ _ _)
+      · cases h
+
+/-- Build the invariant from facts about any permutation `L` of the flattened chains. -/
+theorem HSet.Inv.of_perm {hash : β → Nat} {s : HSet β} (L : List (Nat × β))
+    (hL : (s.chains.flatMap id).Perm L)
+    (placed : ∀ b (ch : List (Nat × β)), s.chains[b]? = some ch →
+      ∀ e ∈ ch, b < s.cap ∧ s.bucket hash e.2 = b)
+    (nodupVals : (L.map (·.2)).Nodup) (size_eq : s.size = L.length)
+    (nodup : (L.map (·.1) ++ s.free).Nodup)
+    (range : ∀ i ∈ L.map (·.1) ++ s.free, 1 ≤ i ∧ i < s.seq)
+    (count : (L.map (·.1) ++ s.free).length + 1 = s.seq)
+    (seq_le : s.seq ≤ s.cap + 1) (cap_le : s.cap ≤ s.slots) (slots_lt : s.slots < 4294967295) :
+    s.Inv hash := by
+  have p1 : s.liveSlots.Perm (L.map (·.1)) := hL.map _
+  have p2 : s.members.Perm (L.map (·.2)) := hL.map _
+  have p3 : (s.liveSlots ++ s.free).Perm (L.map (·.1) ++ s.free) := p1.append_right _
+  exact
+    { placed := placed
+      nodupVals := p2.nodup_iff.2 nodupVals
+      size_eq := by rw [size_eq, p1.length_eq, List.length_map]
+      nodup := p3.nodup_iff.2 nodup
+      range := fun i hi => range i (p3.mem_iff.1 hi)
+      count := by rw [p3.length_eq]; exact count
+      seq_le := seq_le, cap_le := cap_le, slots_lt := slots_lt }
+
+theorem HSet.Inv.size_le_cap {hash : β → Nat} {s : HSet β} (h : s.Inv hash) : s.size ≤ s.cap := by
+  have h1 := h.count
+  have h2 := h.seq_le
+  have h3 := h.size_eq
+  simp only [List.length_append] at h1
+  omega
+
+theorem HSet.members_length (s : HSet β) : s.members.length = s.liveSlots.length := by
+  simp only [HSet.members, HSet.liveSlots, List.length_map]
+
+theorem HSet.Inv.getElem?_bucket {hash : β → Nat} {s : HSet β} (h : s.Inv hash) (hc : s.cap ≠ 0)
+    (v : β) : ∃ ch, s.chains[s.bucket hash v]? = some ch := by
+  have hb : s.bucket hash v < s.cap := Nat.mod_lt _ (by omega)
+  have := h.cap_le
+  unfold HSet.slots at this
+  exact ⟨s.chains[s.bucket hash v]'(by omega), List.getElem?_eq_getElem _⟩
+
+theorem HSet.Inv.mem_members_iff {hash : β → Nat} {s : HSet β} (h : s.Inv hash) (v : β)
+    {ch : List (Nat × β)} (hch : s.chains[s.bucket hash v]? = some ch) :
+    v ∈ s.members ↔ v ∈ ch.map (·.2) := by
+  constructor
+  · intro hv
+    simp only [HSet.members, List.mem_map, List.mem_flatMap, id] at hv
+    obtain ⟨e, ⟨ch', hch', he⟩, rfl⟩ := hv
+    obtain ⟨b, hb⟩ := List.mem_iff_getElem?.1 hch'
+    have := (h.placed b ch' hb e he).2
+    rw [this, hb] at hch
+    cases hch
+    exact List.mem_map.2 ⟨e, he, rfl⟩
+  · intro hv
+    simp only [List.mem_map] at hv
+    obtain ⟨e, he, rfl⟩ := hv
+    simp only [HSet.members, List.mem_map, List.mem_flatMap, id]
+    exact ⟨e, ⟨ch, List.mem_of_getElem? hch, he⟩, rfl⟩
+
+/-- Allocation succeeds on a non-full state and hands out a fresh slot. -/
+theorem HSet.Inv.alloc_ok {hash : β → Nat} {s : HSet β} (h : s.Inv hash) (hlt : s.size < s.cap) :
+    ∃ s1 i, s.alloc = .ok (s1, i) ∧ s1.chains = s.chains ∧ s1.cap = s.cap ∧
+      s1.size = s.size + 1 ∧ (i :: (s.liveSlots ++ s1.free)).Nodup ∧
+      (∀ j ∈ i :: (s.liveSlots ++ s1.free), 1 ≤ j ∧ j < s1.seq) ∧
+      (s.liveSlots ++ s1.free).length + 2 = s1.seq ∧ s1.seq ≤ s1.cap + 1 := by
+  have hnd := h.nodup
+  have hr := h.range
+  have hc := h.count
+  have hse := h.size_eq
+  have hsl := h.seq_le
+  have hcl := h.cap_le
+  have hslt := h.slots_lt
+  unfold HSet.alloc
+  cases hf : s.free with
+  | cons i rest =>
+    rw [hf] at hnd hr hc
+    have hi := hr i (by simp)
+    simp only [List.length_append, List.length_cons] at hc
+    simp only
+    rw [if_neg (by omega), if_neg (by omega), if_neg (by omega)]
+    refine ⟨_, _, rfl, rfl, rfl, rfl, ?_, ?_, ?_, hsl⟩
+    · exact (List.perm_middle).nodup_iff.1 hnd
+    · intro j hj
+      exact hr j ((List.perm_middle).mem_iff.2 hj)
+    · simp only [List.length_append]; omega
+  | nil =>
+    rw [hf] at hnd hr hc
+    simp only [List.append_nil] at hnd hr hc
+    simp only
+    rw [if_neg (by omega), if_neg (by omega), if_neg (by omega), if_neg (by omega),
+      if_neg (by omega)]
+    refine ⟨_, _, rfl, rfl, rfl, rfl, ?_, ?_, ?_, ?_⟩
+    · simp only [List.append_nil, List.nodup_cons]
+      exact ⟨fun hm => by have := hr _ hm; omega, hnd⟩
+    · intro j hj
+      simp only [List.append_nil, List.mem_cons] at hj
+      rcases hj with rfl | hj
+      · simp only; omega
+      · have := hr j hj
+        simp only; omega
+    · simp only [List.append_nil]; omega
+    · simp only; omega
+
+theorem HSet.bucket_congr (hash : β → Nat) {s s' : HSet β} (hc : s'.cap = s.cap) (v : β) :
+    s'.bucket hash v = s.bucket hash v := by
+  simp only [HSet.bucket, hc]
+
 section Lemmas
 variable [DecidableEq β]
+set_option linter.unusedSectionVars false
 
 theorem HSet.inv_init (hash : β → Nat) (slots cap : Nat) (h1 : cap ≤ slots) (h2 : slots < 4294967295) :
     (HSet.init slots cap : HSet β).Inv hash := by
-  sorry
+  have hf : ((List.replicate slots ([] : List (Nat × β))).flatMap id) = [] := by
+    rw [List.flatMap_eq_nil_iff]
+    intro x hx
+    exact (List.mem_replicate.1 hx).2
+  refine HSet.Inv.of_perm [] (by simp [HSet.init, hf]) ?_ (by simp) (by simp [HSet.init])
+    (by simp [HSet.init]) (by simp [HSet.init]) (by simp [HSet.init]) (by simp [HSet.init])
+    (by simpa [HSet.init, HSet.slots] using h1) (by simpa [HSet.init, HSet.slots] using h2)
+  intro b ch hb e he
+  have := List.mem_of_getElem? hb
+  simp only [HSet.init] at this
+  rw [(List.mem_replicate.1 this).2] at he
+  cases he
 
 /-- `contains` never faults and is membership. -/
 theorem HSet.contains_spec {hash : β → Nat} {s : HSet β} (h : s.Inv hash) (v : β) :
     s.contains hash v = .ok (decide (v ∈ s.members)) := by
-  sorry
+  unfold HSet.contains
+  split
+  · rename_i h0
+    have hl : s.members.length = 0 := by rw [HSet.members_length, ← h.size_eq, h0]
+    have : s.members = [] := List.eq_nil_of_length_eq_zero hl
+    simp [this]
+  · rename_i h0
+    have hc : s.cap ≠ 0 := by have := h.size_le_cap; omega
+    rw [if_neg hc]
+    obtain ⟨ch, hch⟩ := h.getElem?_bucket hc v
+    rw [hch]
+    simp only
+    congr 1
+    rw [Bool.eq_iff_iff, HSet.chainHas_iff, decide_eq_true_iff, h.mem_members_iff v hch]
 
 /-- `insert`: refused (state unchanged) exactly for a member or a full set; otherwise the value joins the members. -/
 theorem HSet.insert_spec {hash : β → Nat} {s : HSet β} (h : s.Inv hash) (v : β) :
@@ -105,7 +296,64 @@ theorem HSet.insert_spec {hash : β → Nat} {s : HSet β} (h : s.Inv hash) (v :
     (v ∉ s.members ∧ s.size < s.cap ∧
       ∃ s', s.insert hash v = .ok (s', true) ∧ s'.Inv hash ∧ s'.members.Perm (v :: s.members) ∧
         s'.cap = s.cap ∧ s'.slots = s.slots ∧ s'.size = s.size + 1) := by
-  sorry
+  have hle := h.size_le_cap
+  unfold HSet.insert
+  by_cases hfull : s.size = s.cap
+  · left; exact ⟨.inr (by omega), by rw [if_pos hfull]⟩
+  · rw [if_neg hfull]
+    have hc : s.cap ≠ 0 := by omega
+    rw [if_neg hc]
+    obtain ⟨ch, hch⟩ := h.getElem?_bucket hc v
+    simp only [hch]
+    have hmem := h.mem_members_iff v hch
+    by_cases hhas : HSet.chainHas ch v = true
+    · left; rw [if_pos hhas]; exact ⟨.inl (hmem.2 ((HSet.chainHas_iff _ _).1 hhas)), rfl⟩
+    · right
+      rw [if_neg hhas]
+      have hv : v ∉ s.members := fun hm => hhas ((HSet.chainHas_iff _ _).2 (hmem.1 hm))
+      obtain ⟨s1, i, ha, hch1, hcap1, hsz1, hnd1, hr1, hc1, hsl1⟩ := h.alloc_ok (by omega)
+      rw [ha]
+      simp only
+      obtain ⟨rest, p1, p2⟩ := HSet.flatMap_set_perm s.chains _ ch hch
+      have hL : (({ s1 with chains := s1.chains.set (s.bucket hash v) ((i, v) :: ch) } :
+          HSet β).chains.flatMap id).Perm ((i, v) :: s.chains.flatMap id) := by
+        simp only [hch1]
+        exact (p2 ((i, v) :: ch)).trans (p1.symm.cons (i, v))
+      refine ⟨hv, by omega, _, rfl, ?_, hL.map Prod.snd, hcap1, ?_, hsz1⟩
+      · refine HSet.Inv.of_perm _ hL ?_ ?_ ?_ ?_ ?_ ?_ hsl1 ?_ ?_
+        · intro b' ch' hb' e he
+          simp only [hch1, List.getElem?_set] at hb'
+          have hbk : ∀ w, HSet.bucket hash
+              ({ s1 with chains := s1.chains.set (s.bucket hash v) ((i, v) :: ch) } : HSet β) w =
+              s.bucket hash w := fun w => HSet.bucket_congr hash hcap1 w
+          rw [hbk]
+          show b' < s1.cap ∧ _
+          rw [hcap1]
+          split at hb'
+          · rename_i hbb
+            subst hbb
+            split at hb'
+            · cases hb'
+              rcases List.mem_cons.1 he with rfl | he
+              · exact ⟨Nat.mod_lt _ (by omega), rfl⟩
+              · exact h.placed _ ch hch e he
+            · cases hb'
+          · exact h.placed b' ch' hb' e he
+        · simp only [List.map_cons, List.nodup_cons]
+          exact ⟨hv, h.nodupVals⟩
+        · show s1.size = _
+          rw [hsz1, h.size_eq]
+          simp only [HSet.liveSlots, List.length_map, List.length_cons]
+        · exact hnd1
+        · exact hr1
+        · simp only [List.map_cons, List.cons_append, List.length_cons]
+          exact hc1
+        · show s1.cap ≤ (s1.chains.set _ _).length
+          rw [List.length_set, hch1, hcap1]; exact h.cap_le
+        · show (s1.chains.set _ _).length < _
+          rw [List.length_set, hch1]; exact h.slots_lt
+      · show (s1.chains.set _ _).length = _
+        rw [List.length_set, hch1]; rfl
 
 /-- `remove`: refused (state unchanged) exactly for a non-member; otherwise only that value leaves. -/
 theorem HSet.remove_spec {hash : β → Nat} {s : HSet β} (h : s.Inv hash) (v : β) :
@@ -113,10 +361,77 @@ theorem HSet.remove_spec {hash : β → Nat} {s : HSet β} (h : s.Inv hash) (v :
     (v ∈ s.members ∧
       ∃ s', s.remove hash v = .ok (s', true) ∧ s'.Inv hash ∧ s.members.Perm (v :: s'.members) ∧
         s'.cap = s.cap ∧ s'.slots = s.slots ∧ s'.size + 1 = s.size) := by
-  sorry
+  have hle := h.size_le_cap
+  unfold HSet.remove
+  by_cases h0 : s.size = 0
+  · left
+    rw [if_pos h0]
+    have hl : s.members.length = 0 := by rw [HSet.members_length, ← h.size_eq, h0]
+    have : s.members = [] := List.eq_nil_of_length_eq_zero hl
+    simp [this]
+  · rw [if_neg h0]
+    have hc : s.cap ≠ 0 := by omega
+    rw [if_neg hc]
+    obtain ⟨ch, hch⟩ := h.getElem?_bucket hc v
+    simp only [hch]
+    have hmem := h.mem_members_iff v hch
+    cases hr : HSet.chainRemove v ch with
+    | none => exact .inl ⟨fun hm => HSet.chainRemove_none hr (hmem.1 hm), rfl⟩
+    | some p =>
+      obtain ⟨i, ch'⟩ := p
+      right
+      have pc := HSet.chainRemove_some hr
+      have hv : v ∈ s.members := hmem.2 ((pc.map Prod.snd).mem_iff.2 (by simp))
+      obtain ⟨rest, p1, p2⟩ := HSet.flatMap_set_perm s.chains _ ch hch
+      have hL : (s.chains.flatMap id).Perm
+          ((i, v) :: (s.chains.set (s.bucket hash v) ch').flatMap id) :=
+        p1.trans ((pc.append_right rest).trans ((p2 ch').symm.cons (i, v)))
+      simp only
+      refine ⟨hv, _, rfl, ?_, hL.map Prod.snd, rfl, ?_, ?_⟩
+      · have hls : s.liveSlots.Perm
+            (i :: ((s.chains.set (s.bucket hash v) ch').flatMap id).map Prod.fst) :=
+          hL.map Prod.fst
+        have P : (s.liveSlots ++ s.free).Perm
+            (((s.chains.set (s.bucket hash v) ch').flatMap id).map Prod.fst ++ i :: s.free) :=
+          (hls.append_right _).trans List.perm_middle.symm
+        exact
+          { placed := by
+              intro b' ch'' hb' e he
+              simp only [List.getElem?_set] at hb'
+              show b' < s.cap ∧ s.bucket hash e.2 = b'
+              split at hb'
+              · rename_i hbb
+                subst hbb
+                split at hb'
+                · cases hb'
+                  exact h.placed _ ch hch e (pc.mem_iff.2 (List.mem_cons_of_mem _ he))
+                · cases hb'
+              · exact h.placed b' ch'' hb' e he
+            nodupVals := (List.nodup_cons.1 ((hL.map Prod.snd).nodup_iff.1 h.nodupVals)).2
+            size_eq := by
+              show s.size - 1 = (((s.chains.set (s.bucket hash v) ch').flatMap id).map Prod.fst).length
+              have := hls.length_eq
+              rw [← h.size_eq, List.length_cons] at this
+              omega
+            nodup := P.nodup_iff.1 h.nodup
+            range := fun j hj => h.range j (P.mem_iff.2 hj)
+            count := by
+              show (((s.chains.set (s.bucket hash v) ch').flatMap id).map Prod.fst ++ i :: s.free).length + 1 = s.seq
+              rw [← P.length_eq]; exact h.count
+            seq_le := h.seq_le
+            cap_le := by
+              show s.cap ≤ (s.chains.set _ _).length
+              rw [List.length_set]; exact h.cap_le
+            slots_lt := by
+              show (s.chains.set _ _).length < _
+              rw [List.length_set]; exact h.slots_lt }
+      · show (s.chains.set _ _).length = _
+        rw [List.length_set]; rfl
+      · show s.size - 1 + 1 = s.size
+        omega
 
 theorem HSet.size_eq_members {hash : β → Nat} {s : HSet β} (h : s.Inv hash) : s.size = s.members.length := by
-  sorry
+  rw [h.size_eq, HSet.members_length]
 
 /-- One operation equals one operation of the reference set, for any list `m`
     that is a permutation of the members. -/
@@ -124,43 +439,332 @@ theorem HSet.setStep_refines {hash : β → Nat} {s : HSet β} (h : s.Inv hash) 
     (hm : s.members.Perm m) (op : SetOp β) :
     ∃ s', s.setStep hash op = .ok (s', (BSet.step s.cap m op).2) ∧ s'.Inv hash ∧
       s'.members.Perm (BSet.step s.cap m op).1 ∧ s'.cap = s.cap := by
-  sorry
+  have hlen : m.length = s.size := by rw [← hm.length_eq, HSet.size_eq_members h]
+  cases op with
+  | insert v =>
+    simp only [HSet.setStep, BSet.step]
+    rcases HSet.insert_spec h v with ⟨hc, he⟩ | ⟨hv, hlt, s', he, hi, hp, hcap, _, _⟩
+    · have hc' : v ∈ m ∨ m.length ≥ s.cap := by
+        rcases hc with hc | hc
+        · exact .inl (hm.mem_iff.1 hc)
+        · exact .inr (by omega)
+      rw [if_pos hc', he]
+      exact ⟨s, rfl, h, hm, rfl⟩
+    · have hc' : ¬ (v ∈ m ∨ m.length ≥ s.cap) := by
+        rintro (hc | hc)
+        · exact hv (hm.mem_iff.2 hc)
+        · omega
+      rw [if_neg hc', he]
+      exact ⟨s', rfl, hi, hp.trans (hm.cons v), hcap⟩
+  | remove v =>
+    simp only [HSet.setStep, BSet.step]
+    rcases HSet.remove_spec h v with ⟨hv, he⟩ | ⟨hv, s', he, hi, hp, hcap, _, _⟩
+    · rw [if_neg (fun hc => hv (hm.mem_iff.2 hc)), he]
+      exact ⟨s, rfl, h, hm, rfl⟩
+    · rw [if_pos (hm.mem_iff.1 hv), he]
+      refine ⟨s', rfl, hi, ?_, hcap⟩
+      have := (hm.symm.trans hp).erase v
+      rw [List.erase_cons_head] at this
+      exact this.symm
+  | contains v =>
+    simp only [HSet.setStep, BSet.step, HSet.contains_spec h v]
+    refine ⟨s, ?_, h, hm, rfl⟩
+    have : decide (v ∈ s.members) = decide (v ∈ m) := by
+      rw [Bool.eq_iff_iff, decide_eq_true_iff, decide_eq_true_iff]; exact hm.mem_iff
+    rw [this]; rfl
+  | size =>
+    simp only [HSet.setStep, BSet.step, hlen]
+    exact ⟨s, rfl, h, hm, rfl⟩
+  | isEmpty =>
+    simp only [HSet.setStep, BSet.step, hlen, HSet.isEmpty]
+    exact ⟨s, rfl, h, hm, rfl⟩
+  | isFull =>
+    simp only [HSet.setStep, BSet.step, hlen, HSet.isFull]
+    exact ⟨s, rfl, h, hm, rfl⟩
 
 /-- Whole histories. -/
 theorem HSet.setRun_refines {hash : β → Nat} {s : HSet β} (h : s.Inv hash) (m : List β)
     (hm : s.members.Perm m) (ops : List (SetOp β)) :
     ∃ s', s.setRun hash ops = .ok (s', (BSet.run s.cap m ops).2) ∧ s'.Inv hash ∧
       s'.members.Perm (BSet.run s.cap m ops).1 := by
-  sorry
+  induction ops generalizing s m with
+  | nil => exact ⟨s, rfl, h, hm⟩
+  | cons op ops ih =>
+    obtain ⟨s1, he1, hi1, hp1, hc1⟩ := HSet.setStep_refines h m hm op
+    obtain ⟨s2, he2, hi2, hp2⟩ := ih hi1 _ hp1
+    refine ⟨s2, ?_, hi2, ?_⟩
+    · simp only [HSet.setRun, he1, he2, BSet.run, hc1]
+    · simpa only [BSet.run, hc1] using hp2
 
 /-- Iterating the read-only view yields every member exactly once and nothing else. -/
 theorem HSet.iter_spec {hash : β → Nat} {s : HSet β} (h : s.Inv hash) :
     s.iter = s.members ∧ s.iter.Nodup := by
-  sorry
+  have hd : (s.chains.drop s.cap).flatMap id = [] := by
+    rw [List.flatMap_eq_nil_iff]
+    intro ch hch
+    obtain ⟨k, hk⟩ := List.mem_iff_getElem?.1 hch
+    rw [List.getElem?_drop] at hk
+    cases ch with
+    | nil => rfl
+    | cons e rest =>
+      have := (h.placed _ _ hk e (by simp)).1
+      omega
+  have he : s.iter = s.members := by
+    unfold HSet.iter HSet.members
+    conv => rhs; rw [← List.take_append_drop s.cap s.chains, List.flatMap_append, hd, List.append_nil]
+  exact ⟨he, he ▸ h.nodupVals⟩
 
 /-- Exactly `cap - size` further new values fit. -/
 theorem HSet.fill_spec {hash : β → Nat} {s : HSet β} (h : s.Inv hash) (vs : List β)
     (hnd : vs.Nodup) (hfresh : ∀ v ∈ vs, v ∉ s.members) (hlen : vs.length + s.size = s.cap) :
     ∃ s', s.insertAll hash vs = some s' ∧ s'.Inv hash ∧ s'.size = s'.cap ∧ s'.cap = s.cap ∧
       ∀ v, s'.insert hash v = .ok (s', false) := by
-  sorry
+  induction vs generalizing s with
+  | nil =>
+    simp only [List.length_nil, Nat.zero_add] at hlen
+    refine ⟨s, rfl, h, hlen, rfl, fun v => ?_⟩
+    unfold HSet.insert
+    rw [if_pos hlen]
+  | cons v rest ih =>
+    simp only [List.length_cons] at hlen
+    rw [List.nodup_cons] at hnd
+    rcases HSet.insert_spec h v with ⟨hc, _⟩ | ⟨_, _, s1, he, hi, hp, hcap, _, hsz⟩
+    · rcases hc with hc | hc
+      · exact absurd hc (hfresh v (by simp))
+      · omega
+    · obtain ⟨s', h1, h2, h3, h4, h5⟩ := ih hi hnd.2 (by
+          intro w hw hm
+          rcases List.mem_cons.1 (hp.mem_iff.1 hm) with rfl | hm
+          · exact hnd.1 hw
+          · exact hfresh w (List.mem_cons_of_mem _ hw) hm) (by omega)
+      refine ⟨s', ?_, h2, h3, h4.trans hcap, h5⟩
+      simp only [HSet.insertAll, he, h1]
 
 /-- Layout precondition follows from the invariant. -/
 theorem HSet.Inv.layoutOk {hash : β → Nat} {s : HSet β} (h : s.Inv hash) : s.LayoutOk := by
-  sorry
+  have h1 := h.seq_le
+  have h2 := h.cap_le
+  refine ⟨h.nodup, fun i hi => ?_, fun i hi => ?_⟩
+  · have := h.range i hi
+    omega
+  · have := h.range i (List.mem_append_right _ hi)
+    omega
+
+/-! ### Layout round trip: lookup lemmas -/
+
+omit [DecidableEq β] in
+theorem chainNext_none {ch : List (Nat × β)} {i : Nat} (h : i ∉ ch.map Prod.fst) :
+    chainNext ch i = none := by
+  induction ch with
+  | nil => rfl
+  | cons e rest ih =>
+    simp only [List.map_cons, List.mem_cons, not_or] at h
+    cases rest with
+    | nil => simp [chainNext, h.1]
+    | cons e' rest => simp [chainNext, h.1, ih h.2]
+
+omit [DecidableEq β] in
+theorem chainsNext_none {chains : List (List (Nat × β))} {i : Nat}
+    (h : i ∉ (chains.flatMap id).map Prod.fst) : chainsNext chains i = none := by
+  induction chains with
+  | nil => rfl
+  | cons c cs ih =>
+    simp only [List.flatMap_cons, id, List.map_append, List.mem_append, not_or] at h
+    simp [chainsNext, chainNext_none h.1, ih h.2]
+
+omit [DecidableEq β] in
+theorem chainNext_head {e : Nat × β} {rest : List (Nat × β)} :
+    chainNext (e :: rest) e.1 = some (HSet.headOf rest, e.2) := by
+  cases rest with
+  | nil => simp [chainNext, HSet.headOf]
+  | cons e' rest => simp [chainNext, HSet.headOf]
+
+omit [DecidableEq β] in
+theorem chainNext_suffix (pre : List (Nat × β)) (e : Nat × β) (rest : List (Nat × β))
+    (hnd : ((pre ++ e :: rest).map Prod.fst).Nodup) :
+    chainNext (pre ++ e :: rest) e.1 = some (HSet.headOf rest, e.2) := by
+  induction pre with
+  | nil => exact chainNext_head
+  | cons p pre ih =>
+    rw [List.cons_append, List.map_cons, List.nodup_cons] at hnd
+    have hp : e.1 ≠ p.1 := fun he => hnd.1 (by simp [he])
+    have : chainNext (p :: (pre ++ e :: rest)) e.1 = chainNext (pre ++ e :: rest) e.1 := by
+      cases hq : pre ++ e :: rest with
+      | nil => simp at hq
+      | cons q qs => simp [chainNext, hp]
+    rw [List.cons_append, this]
+    exact ih hnd.2
+
+omit [DecidableEq β] in
+theorem chainsNext_mem {chains : List (List (Nat × β))}
+    (hnd : ((chains.flatMap id).map Prod.fst).Nodup) {pre : List (Nat × β)} {e : Nat × β}
+    {rest : List (Nat × β)} (hm : pre ++ e :: rest ∈ chains) :
+    chainsNext chains e.1 = some (HSet.headOf rest, e.2) := by
+  induction chains with
+  | nil => cases hm
+  | cons c cs ih =>
+    simp only [List.flatMap_cons, id, List.map_append] at hnd
+    have hnd' := List.nodup_append.1 hnd
+    rcases List.mem_cons.1 hm with rfl | hm
+    · simp [chainsNext, chainNext_suffix pre e rest hnd'.1]
+    · have hin : e.1 ∈ (cs.flatMap id).map Prod.fst :=
+        List.mem_map.2 ⟨e, List.mem_flatMap.2 ⟨_, hm, by simp⟩, rfl⟩
+      have hnc : e.1 ∉ c.map Prod.fst := fun hc => hnd'.2.2 _ hc _ hin rfl
+      simp [chainsNext, chainNext_none hnc, ih hnd'.2.1 hm]
+
+/-! ### Layout round trip: records and walks -/
+
+omit [DecidableEq β] in
+theorem HSet.image_recs_length (vd : β) (s : HSet β) : (s.image vd).recs.length = s.slots := by
+  simp [HSet.image]
+
+omit [DecidableEq β] in
+theorem HSet.image_recs_getElem? (vd : β) (s : HSet β) {j : Nat} (hj : j < s.slots) :
+    (s.image vd).recs[j]? = some (s.recAt vd j) := by
+  simp [HSet.image, List.getElem?_map, List.getElem?_range hj]
+
+omit [DecidableEq β] in
+theorem HSet.flhReg_eq (s : HSet β) : s.flhReg = s.free.head?.getD s.seq := by
+  unfold HSet.flhReg
+  cases s.free <;> rfl
+
+omit [DecidableEq β] in
+theorem HSet.recAt_live (vd : β) (s : HSet β) {j nxt : Nat} {v : β}
+    (h : chainsNext s.chains (j + 1) = some (nxt, v)) :
+    s.recAt vd j = ⟨HSet.headOf (s.chains.getD j []), nxt, v⟩ := by
+  simp [HSet.recAt, h]
+
+omit [DecidableEq β] in
+theorem HSet.recAt_free (vd : β) (s : HSet β) {j nxt : Nat}
+    (hni : j + 1 ∉ s.liveSlots) (hf : freeNext s.seq s.free (j + 1) = some nxt) :
+    s.recAt vd j = ⟨HSet.headOf (s.chains.getD j []), nxt, vd⟩ := by
+  simp [HSet.recAt, chainsNext_none hni, hf]
+
+omit [DecidableEq β] in
+theorem HImage.walkChain_zero (img : HImage β) (fuel : Nat) : img.walkChain fuel 0 = some [] := by
+  cases fuel <;> rfl
+
+omit [DecidableEq β] in
+/-- Walking the layout from the head of any suffix of a chain rebuilds that suffix. -/
+theorem HSet.walkChain_image (vd : β) (s : HSet β) (h : s.LayoutOk) :
+    ∀ rest pre : List (Nat × β), pre ++ rest ∈ s.chains → ∀ fuel, rest.length ≤ fuel →
+      (s.image vd).walkChain fuel (HSet.headOf rest) = some rest := by
+  intro rest
+  induction rest with
+  | nil => intro _ _ fuel _; exact HImage.walkChain_zero _ _
+  | cons e rest ih =>
+    intro pre hm fuel hf
+    have hnd0 := List.nodup_append.1 h.nodup
+    have hmem : e.1 ∈ s.liveSlots :=
+      List.mem_map.2 ⟨e, List.mem_flatMap.2 ⟨_, hm, by simp⟩, rfl⟩
+    have hr := h.range e.1 (by simp [hmem])
+    obtain ⟨i, v⟩ := e
+    obtain ⟨i', rfl⟩ : ∃ i', i = i' + 1 := ⟨i - 1, by simp only at hr; omega⟩
+    simp only [List.length_cons] at hf
+    obtain ⟨f, rfl⟩ : ∃ f, fuel = f + 1 := ⟨fuel - 1, by omega⟩
+    have hcn := chainsNext_mem hnd0.1 hm
+    have hrec := HSet.recAt_live vd s hcn
+    have hih := ih (pre ++ [(i' + 1, v)]) (by simpa using hm) f (by omega)
+    show (s.image vd).walkChain (f + 1) (i' + 1) = _
+    simp only at hr
+    simp [HImage.walkChain, HSet.image_recs_getElem? vd s (show i' < s.slots by omega), hrec, hih]
+
+omit [DecidableEq β] in
+/-- Following the free-list threading of the layout rebuilds any suffix of the free list. -/
+theorem HSet.walkFree_image (vd : β) (s : HSet β) (h : s.LayoutOk) :
+    ∀ rest pre : List Nat, s.free = pre ++ rest → ∀ fuel, rest.length ≤ fuel →
+      (s.image vd).walkFree s.seq fuel (rest.head?.getD s.seq) = some rest := by
+  intro rest
+  induction rest with
+  | nil => intro pre _ fuel _; unfold HImage.walkFree; simp
+  | cons a rest ih =>
+    intro pre hp fuel hf
+    have hmem : a ∈ s.free := by simp [hp]
+    have hne := h.free_ne a hmem
+    have hr := h.range a (by simp [hmem])
+    have hnd0 := List.nodup_append.1 h.nodup
+    have hni : a ∉ s.liveSlots := fun hm => hnd0.2.2 _ hm _ hmem rfl
+    simp only [List.length_cons] at hf
+    obtain ⟨f, rfl⟩ : ∃ f, fuel = f + 1 := ⟨fuel - 1, by omega⟩
+    obtain ⟨a', rfl⟩ : ∃ a', a = a' + 1 := ⟨a - 1, by omega⟩
+    have hnd : (pre ++ (a' + 1) :: rest).Nodup := hp ▸ hnd0.2.1
+    have hfn : freeNext s.seq s.free (a' + 1) = some (rest.head?.getD s.seq) := by
+      rw [hp]; exact freeNext_suffix pre (a' + 1) rest hnd
+    have hrec := HSet.recAt_free vd s hni hfn
+    have hih := ih (pre ++ [a' + 1]) (by simp [hp]) f (by omega)
+    unfold HImage.walkFree
+    simp [hne, HSet.image_recs_getElem? vd s (show a' < s.slots by omega), hrec, hih]
+
+theorem mapM_option_eq_some {α γ : Type} (f : α → Option γ) :
+    ∀ (l : List α) (l' : List γ), l.length = l'.length →
+      (∀ j (h1 : j < l.length) (h2 : j < l'.length), f l[j] = some l'[j]) → l.mapM f = some l'
+  | [], [], _, _ => by simp
+  | [], _ :: _, hl, _ => by simp at hl
+  | _ :: _, [], hl, _ => by simp at hl
+  | a :: l, b :: l', hl, h => by
+    have h0 := h 0 (by simp) (by simp)
+    simp only [List.getElem_cons_zero] at h0
+    have ih := mapM_option_eq_some f l l' (by simpa using hl) (fun j h1 h2 => by
+      have := h (j + 1) (by simp; omega) (by simp; omega)
+      simpa using this)
+    simp [List.mapM_cons, h0, ih]
 
 /-- The structural decoder inverts the layout. -/
 theorem HImage.decodeCore_image (vd : β) (s : HSet β) (h : s.LayoutOk) :
     (s.image vd).decodeCore = some s := by
-  sorry
+  have hlen := HSet.image_recs_length vd s
+  have hnd := List.nodup_append.1 h.nodup
+  have h1 : s.liveSlots.length ≤ s.slots :=
+    length_le_of_nodup_range _ _ hnd.1 (fun i hi => h.range i (by simp [hi]))
+  have h2 : s.free.length ≤ s.slots :=
+    length_le_of_nodup_range _ _ hnd.2.1 (fun i hi => h.range i (by simp [hi]))
+  have hf := HSet.walkFree_image vd s h s.free [] (by simp) (s.slots + 1) (by omega)
+  rw [← HSet.flhReg_eq] at hf
+  have hm : (s.image vd).recs.mapM (fun rc => (s.image vd).walkChain s.slots rc.bucket) =
+      some s.chains := by
+    apply mapM_option_eq_some
+    · rw [hlen]; rfl
+    · intro j hj1 hj2
+      have hj : j < s.slots := hlen ▸ hj1
+      have hrc : (s.image vd).recs[j] = s.recAt vd j := by
+        have := HSet.image_recs_getElem? vd s hj
+        rw [List.getElem?_eq_getElem hj1] at this
+        exact Option.some.inj this
+      have hb : (s.recAt vd j).bucket = HSet.headOf s.chains[j] := by
+        have hg : s.chains.getD j [] = s.chains[j] := by
+          rw [List.getD_eq_getElem?_getD, List.getElem?_eq_getElem hj2]; rfl
+        unfold HSet.recAt
+        simp only [hg]
+        split
+        · rfl
+        · split <;> rfl
+      rw [hrc, hb]
+      have hmem : s.chains[j] ∈ s.chains := List.getElem_mem hj2
+      obtain ⟨rest, p1, _⟩ := HSet.flatMap_set_perm s.chains j s.chains[j]
+        (List.getElem?_eq_getElem hj2)
+      have hl : s.chains[j].length ≤ s.liveSlots.length := by
+        have := p1.length_eq
+        simp only [HSet.liveSlots, List.length_map, this, List.length_append]
+        omega
+      exact HSet.walkChain_image vd s h s.chains[j] [] (by simpa using hmem) s.slots (by omega)
+  have e2 : (s.image vd).hdr.seq = s.seq := rfl
+  have e3 : (s.image vd).hdr.flh = s.flhReg := rfl
+  have e4 : (s.image vd).hdr.size = s.size := rfl
+  have e5 : (s.image vd).hdr.cap = s.cap := rfl
+  simp only [HImage.decodeCore, hlen, e2, e3, e4, e5, hm, hf]
 
 theorem HImage.decode_image (vd : β) (s : HSet β) (h : s.LayoutOk) :
     (s.image vd).decode vd = some s := by
-  sorry
+  simp [HImage.decode, HImage.decodeCore_image vd s h]
 
 theorem HImage.image_of_decode (vd : β) (img : HImage β) (s : HSet β) (h : img.decode vd = some s) :
     s.image vd = img := by
-  sorry
+  unfold HImage.decode at h
+  split at h
+  · split at h
+    · cases h; assumption
+    · cases h
+  · cases h
 
 end Lemmas
 end Stevia
